@@ -340,3 +340,6 @@ Lemma const_int_accepts_bool o : valid (eval o (CConst (AInt 1)) (PA (ABool true
 Proof. vm_compute. reflexivity. Qed.
 Lemma enum_empty_string_is_prefix o : valid (eval o (CEnum [[65; 66]]) (PA (AStr []))) = true.
 Proof. vm_compute. reflexivity. Qed.
+
+Example type_unknown_ex : assoc [70; 79; 79] cst_type_map = None.
+Proof. vm_compute. reflexivity. Qed.
